@@ -108,6 +108,15 @@ theorem C12_fail_closed : FailClosed Quirks.current := by
   rw [hr]
   exact ⟨rfl, secDeleted_of_code n bl hn⟩
 
+/-- **Every security block is visited, whatever is removed on acceptance.** In a step of the code as
+    it is, each block of the step's type that is defective when the step starts contributes a failure –
+    also when blocks before it verify, are accepted and removed from the container during the loop
+    (first, middle or last of any number of such blocks). -/
+theorem C12_every_block_visited (e : Env) (tc : Nat) (st : List Blk) (b : Blk) (hb : b ∈ st)
+    (htc : b.typeCode = tc) (hd : blkDefect e (present st) b = true) :
+    (stepRun Quirks.current e tc st).2 ≠ [] :=
+  (stepRun_fixed e tc st).2.2 ⟨b, hb, htc, hd⟩
+
 /-- **Any failing target fails the block, at every position.** For a security block of any quirk set,
     acceptance setting and block list: if the target at index `j` of its target list – first, middle
     or last – is missing, has no result list, has not exactly one result, or its cryptographic check
@@ -152,6 +161,12 @@ def stD22 : List Blk := [⟨11, 2, [0xff], none⟩, payload]
 /-- D29: a BIB without the optional parameters field whose only target verifies. -/
 def stD29 : List Blk := [⟨11, 2, [], some { okAsb [1] with hasParams := false, paramIds := [] }⟩, payload]
 end C12ex
+
+/-- two BCBs, acceptance on: the first decrypts and is removed, the second does not decrypt -/
+example : (run Quirks.current ⟨true, fun s _ => if s == 2 then .ok else .fail, fun _ _ => [1]⟩ true
+    [⟨12, 2, [], some (C12ex.okAsb [3])⟩, ⟨12, 4, [], some (C12ex.okAsb [1])⟩, C12ex.age, C12ex.payload]).secDeleted = true := by
+  decide
+
 
 /-- hypotheses of `C12_fail_closed` hold on the four witnesses of the former defects, and its
     conclusion computes: not delivered, deleted with a security reason (15; 15 wins over 13) -/
